@@ -158,9 +158,13 @@ DiagClosure(nt, traps, srcs, root, todo) ==  \* todo: <<frontier, seen>>
              nx == kids \ seen
          IN DiagClosure(nt, traps, srcs, root, <<nx, seen \cup nx>>)
 
-SemOf(nt) ==
+\* `srcs0`: the source variables the root expansion fixes all at once.  They are those of the network as given; a
+\* network that is the percolated core of a larger one (traces of the repository's test suite on published models)
+\* names them explicitly: a core variable whose function only BECOMES the identity after substituting constants is
+\* not a source for the library, which reads sources off the unpercolated Petri net.
+SemOfSrcs(nt, srcs0) ==
     LET traps == TLCEval(Traps(nt))
-        srcs  == TLCEval(Sources(nt))
+        srcs  == TLCEval(srcs0)
         root  == TLCEval(Perc(nt, AllFree(nt)))
         diag  == TLCEval(DiagClosure(nt, traps, srcs, root, <<{root}, {root}>>))
         reach == TLCEval(ReachTab(nt))
@@ -174,4 +178,5 @@ SemOf(nt) ==
          mint  |-> TLCEval(Minimal(traps)),
          reach |-> reach,
          attr  |-> TLCEval(AttrFrom(nt, reach)) ]
+SemOf(nt) == SemOfSrcs(nt, Sources(nt))
 =============================================================================
